@@ -117,3 +117,126 @@ theorem mergeTo_lazy {T : Nat} {xs : List Nat} (h : Lazy T xs) : mergeTo (popcou
     rw [e]; exact ih
 
 end St
+
+namespace St
+
+theorem bd_sum (n : Nat) : (bd n).sum = n := by
+  induction n using Nat.strongRecOn with
+  | _ n ih =>
+    by_cases h : n = 0
+    · subst h; simp [bd_zero]
+    · rcases Nat.mod_two_eq_zero_or_one n with h2 | h2
+      · have e : n = 2 * (n / 2) := by omega
+        rw [e, bd_double]
+        have := ih (n / 2) (by omega)
+        have hm : ∀ l : List Nat, (l.map (· * 2)).sum = l.sum * 2 := by
+          intro l; induction l with
+          | nil => rfl
+          | cons a l ihl => simp [ihl]; omega
+        rw [hm, this]; omega
+      · have e : n = 2 * (n / 2) + 1 := by omega
+        rw [e, bd_double_succ]
+        have := ih (n / 2) (by omega)
+        have hm : ∀ l : List Nat, (l.map (· * 2)).sum = l.sum * 2 := by
+          intro l; induction l with
+          | nil => rfl
+          | cons a l ihl => simp [ihl]; omega
+        simp [hm, this]; omega
+
+theorem bd_pow2 (n : Nat) : ∀ s ∈ bd n, ∃ a, s = 2 ^ a := by
+  induction n using Nat.strongRecOn with
+  | _ n ih =>
+    intro s hs
+    by_cases h : n = 0
+    · subst h; simp [bd_zero] at hs
+    · rcases Nat.mod_two_eq_zero_or_one n with h2 | h2
+      · have e : n = 2 * (n / 2) := by omega
+        rw [e, bd_double] at hs
+        simp at hs
+        obtain ⟨x, hx, rfl⟩ := hs
+        obtain ⟨a, rfl⟩ := ih (n / 2) (by omega) x hx
+        exact ⟨a + 1, by rw [Nat.pow_succ]⟩
+      · have e : n = 2 * (n / 2) + 1 := by omega
+        rw [e, bd_double_succ] at hs
+        simp at hs
+        rcases hs with ⟨x, hx, rfl⟩ | rfl
+        · obtain ⟨a, rfl⟩ := ih (n / 2) (by omega) x hx
+          exact ⟨a + 1, by rw [Nat.pow_succ]⟩
+        · exact ⟨0, rfl⟩
+
+theorem lazy_pow2 {T : Nat} {xs : List Nat} (h : Lazy T xs) : ∀ s ∈ xs, ∃ a, s = 2 ^ a := by
+  induction h with
+  | canon => exact bd_pow2 T
+  | merge xs s _ ih =>
+    intro x hx
+    simp at hx
+    have hs : ∃ a, s = 2 ^ a := by
+      obtain ⟨a, ha⟩ := ih (2 * s) (by simp)
+      cases a with
+      | zero => simp at ha; omega
+      | succ a => exact ⟨a, by rw [Nat.pow_succ] at ha; omega⟩
+    rcases hx with hx | rfl
+    · exact ih x (by simp [hx])
+    · exact hs
+
+theorem lazy_sum {T : Nat} {xs : List Nat} (h : Lazy T xs) : xs.sum = T := by
+  induction h with
+  | canon => exact bd_sum T
+  | merge xs s _ ih => simp at ih ⊢; omega
+
+/-- every element is at least the sum of everything after it plus `k` -/
+def GoodS (k : Nat) : List Nat → Prop
+  | [] => True
+  | x :: r => r.sum + k ≤ x ∧ GoodS k r
+
+theorem goodS_map2 (k : Nat) : (l : List Nat) → GoodS k l → GoodS (2 * k) (l.map (· * 2))
+  | [], _ => trivial
+  | x :: r, h => by
+    have hm : ∀ l : List Nat, (l.map (· * 2)).sum = l.sum * 2 := by
+      intro l; induction l with
+      | nil => rfl
+      | cons a l ihl => simp [ihl]; omega
+    refine ⟨?_, goodS_map2 k r h.2⟩
+    have := h.1
+    show (r.map (· * 2)).sum + 2 * k ≤ x * 2
+    rw [hm]; omega
+
+theorem goodS_mono {k k' : Nat} (hk : k' ≤ k) : (l : List Nat) → GoodS k l → GoodS k' l
+  | [], _ => trivial
+  | x :: r, h => ⟨by have := h.1; omega, goodS_mono hk r h.2⟩
+
+theorem goodS_append_one : (l : List Nat) → GoodS 2 l → GoodS 1 (l ++ [1])
+  | [], _ => by simp [GoodS]
+  | x :: r, h => by
+    refine ⟨?_, goodS_append_one r h.2⟩
+    have := h.1
+    simp; omega
+
+theorem bd_goodS (n : Nat) : GoodS 1 (bd n) := by
+  induction n using Nat.strongRecOn with
+  | _ n ih =>
+    by_cases h : n = 0
+    · subst h; simp [bd_zero, GoodS]
+    · rcases Nat.mod_two_eq_zero_or_one n with h2 | h2
+      · have e : n = 2 * (n / 2) := by omega
+        rw [e, bd_double]
+        exact goodS_mono (by omega) _ (goodS_map2 1 _ (ih (n / 2) (by omega)))
+      · have e : n = 2 * (n / 2) + 1 := by omega
+        rw [e, bd_double_succ]
+        exact goodS_append_one _ (goodS_map2 1 _ (ih (n / 2) (by omega)))
+
+theorem goodS_unmerge (xs : List Nat) (s : Nat) : GoodS 0 (xs ++ [2 * s]) → GoodS 0 (xs ++ [s, s]) := by
+  induction xs with
+  | nil => intro _; simp [GoodS]
+  | cons x r ih =>
+    intro h
+    refine ⟨?_, ih h.2⟩
+    have := h.1
+    simp at this ⊢; omega
+
+theorem lazy_goodS {T : Nat} {xs : List Nat} (h : Lazy T xs) : GoodS 0 xs := by
+  induction h with
+  | canon => exact goodS_mono (by omega) _ (bd_goodS T)
+  | merge xs s _ ih => exact goodS_unmerge xs s ih
+
+end St
